@@ -571,100 +571,127 @@ def r7_tuple(repo, report):
     st = {chain(t if not isinstance(n, ast.AnnAssign) else n.target): src(n.value) for n in ast.walk(mi) if isinstance(n, (ast.Assign, ast.AnnAssign)) and n.value is not None for t in ([n.target] if isinstance(n, ast.AnnAssign) else n.targets) if chain(t)}
     ok = all(st.get(f"self.{p}") == p for p in ("astart", "astop", "rstart", "rstop", "score", "errors", "adapter", "sequence")) and st.get("self.length") == "astop - astart"
     report.ob("C01.R7", "SingleMatch.__init__ stores each component under its name", ok, facts={k: v for k, v in st.items() if k.startswith("self.")}, expected="self.x = x for the six components; length = astop - astart", loc=repo.loc(mi))
+    # every SingleAdapter.match_to, explored whole: what is searched, and what the match is built from
+    from ..absint import Tup, Const
+
+    def match_to_outcomes(mt):
+        seen = {"locate": set(), "kmers_present": set()}
+
+        def hk(ex, node, env):
+            f = chain(node.func)
+            if f == "self.kmer_finder.kmers_present" and len(node.args) == 1:
+                seen["kmers_present"].add(vkey(ex.ev(node.args[0], env)))
+                return Obj("KP")
+            if f == "self.aligner.locate" and len(node.args) == 1:
+                seen["locate"].add(vkey(ex.ev(node.args[0], env)))
+                if ex.ask_bool("isnone:AL"):
+                    return Const(None)
+                return Tup([Lin.atom(f"A{i}") for i in range(6)])
+            if f == "print_matrices":
+                return Const(None)
+            if f in ("RemoveBeforeMatch", "RemoveAfterMatch"):
+                pos = []
+                for a_ in node.args:
+                    if isinstance(a_, ast.Starred):
+                        v = ex.ev(a_.value, env)
+                        if not isinstance(v, Tup):
+                            raise Unrecognised(f"starred argument of {f} is not a tuple: {src(a_)}")
+                        pos += list(v.items)
+                    else:
+                        pos.append(ex.ev(a_, env))
+                kw = {k.arg: vkey(ex.ev(k.value, env)) for k in node.keywords}
+                return Obj(f"{f}({', '.join(vkey(x) for x in pos)} | adapter={kw.get('adapter')} sequence={kw.get('sequence')})", nonnull=True)
+            return None
+
+        rws = explore(repo, strip_docstring(mt.body), {"self": Obj("self", nonnull=True), "sequence": Obj("SEQ", nonnull=True)}, call_hook=hk, inline=False)
+        outs = {}
+        for r_ in rws:
+            if r_.exit[0] != "return":
+                outs.setdefault(f"<{r_.exit[0]}>", []).append(dict(r_.valuation))
+                continue
+            outs.setdefault(vkey(r_.exit[1]), []).append(dict(r_.valuation))
+        return seen, outs
+
+    plain = "A0, A1, A2, A3, A4, A5"
+    la, lr = Lin.atom("len(self.sequence)"), Lin.atom("len(SEQ)")
+    mirrored = ", ".join(x.key() for x in (la - Lin.atom("A1"), la - Lin.atom("A0"), lr - Lin.atom("A3"), lr - Lin.atom("A2"), Lin.atom("A4"), Lin.atom("A5")))
     n = 0
     for cname in [c.name for c in repo.subclasses("SingleAdapter")]:
         cls = repo.cls(cname)
         if "match_to" not in cls.methods:
             continue
         mt = cls.methods["match_to"]
-        ctor = [x for x in calls(mt) if chain(x.func) in ("RemoveBeforeMatch", "RemoveAfterMatch")]
-        for x in ctor:
-            n += 1
-            ok = len(x.args) == 1 and isinstance(x.args[0], ast.Starred) and src(x.args[0].value) == "alignment" and {k.arg: src(k.value) for k in x.keywords} == {"adapter": "self", "sequence": "sequence"}
-            report.ob("C01.R7", f"{cname}.match_to -> {chain(x.func)}", ok, facts={"call": src(x)}, expected="Match(*alignment, adapter=self, sequence=sequence)", loc=repo.loc(x))
+        seen, outs = match_to_outcomes(mt)
+        rightmost = cname == "RightmostFrontAdapter"
+        want_args = mirrored if rightmost else plain
+        want_search = {"SEQ[::-1]"} if rightmost else {"SEQ", "SEQ.upper()"}
+        ctors = sorted(k.split("(")[0] for k in outs if k.startswith("Remove"))
+        bad = [k for k in outs if k != "None" and not (k.startswith("Remove") and k.endswith(f"({want_args} | adapter=self sequence=SEQ)"))]
+        n += len(ctors)
+        ok = not bad and ctors and seen["locate"] and seen["locate"] <= want_search and seen["kmers_present"] <= want_search and (not rightmost or seen["kmers_present"] == want_search)
+        # a match is returned exactly when the aligner returned an alignment (and the prefilter did not reject)
+        for k, vals in outs.items():
+            for v in vals:
+                if k == "None" and v.get("isnone:AL") is False and v.get("truthy:KP") is not False:
+                    ok = False
+                    bad.append("returns None although an alignment was found")
+                if k.startswith("Remove") and v.get("isnone:AL") is not False:
+                    ok = False
+        report.ob("C01.R7", f"{cname}.match_to: match built from the alignment", bool(ok), facts={"searched": {k: sorted(v) for k, v in seen.items()}, "returns": sorted(outs)},
+                  expected=f"Match({want_args}, adapter=self, sequence=sequence) from locate({'reversed read' if rightmost else 'read'}); None iff prefilter rejects or no alignment", loc=repo.loc(mt),
+                  why=(f"unexpected outcome {bad[0]}" if bad else ""))
+        if cname == "AnywhereAdapter":
+            tbl7 = {}
+            for k, vals in outs.items():
+                if k.startswith("Remove"):
+                    for v in vals:
+                        tbl7.setdefault(str(v.get("sign:A2")), set()).add(k.split("(")[0])
+            tbl7 = {k: sorted(v) for k, v in tbl7.items()}
+            report.ob("C01.R7", "AnywhereAdapter: 5' match iff rstart == 0", tbl7 == {"0": ["RemoveBeforeMatch"], "-1": ["RemoveAfterMatch"], "1": ["RemoveAfterMatch"]},
+                      facts={"table": tbl7}, expected="alignment[2] (rstart) == 0 -> RemoveBeforeMatch, else RemoveAfterMatch", loc=repo.loc(mt))
+        else:
+            want_ctor = "RemoveBeforeMatch" if any(b.name == "FrontAdapter" or b.name == "NonInternalFrontAdapter" for b in repo.mro(cname)) or cname in ("FrontAdapter", "NonInternalFrontAdapter") else "RemoveAfterMatch"
+            report.ob("C01.R7", f"{cname}.match_to: kind of match", ctors == [want_ctor], facts={"constructs": ctors}, expected=want_ctor, loc=repo.loc(mt))
     report.floor("C01.R7", "match constructions", n, 7)
-    # anywhere: 5' iff the match starts at read position 0
-    c, am = repo.need_method("AnywhereAdapter", "match_to")
-    st_ = [x for x in ast.walk(am) if isinstance(x, (ast.If, ast.Assign)) and "RemoveBeforeMatch" in src(x) and "RemoveAfterMatch" in src(x) and not any(isinstance(y, (ast.If,)) and y is not x and "RemoveBeforeMatch" in src(y) and "RemoveAfterMatch" in src(y) for y in ast.walk(x))]
-    ok = False
-    tbl7 = {}
-    if len(st_) == 1:
-        def hk(ex, node, env):
-            if chain(node.func) in ("RemoveBeforeMatch", "RemoveAfterMatch"):
-                return Obj(chain(node.func), nonnull=True)
-            return None
-        rws = explore(repo, [st_[0]], {"alignment": Obj("AL", nonnull=True), "self": Obj("self", nonnull=True), "sequence": Obj("SEQ")}, call_hook=hk, inline=False)
-        for r_ in rws:
-            tbl7[str(r_.valuation.get("sign:AL[2]"))] = vkey(r_.env.get("match")) if "match" in r_.env else (vkey(r_.exit[1]) if r_.exit[0] == "return" else None)
-        ok = tbl7 == {"0": "RemoveBeforeMatch", "-1": "RemoveAfterMatch", "1": "RemoveAfterMatch"}
-    report.ob("C01.R7", "AnywhereAdapter: 5' match iff rstart == 0", ok, facts={"table": tbl7}, expected="alignment[2] (rstart) == 0 -> RemoveBeforeMatch, else RemoveAfterMatch", loc=repo.loc(am))
-    # rightmost mirror
-    c, rm = repo.need_method("RightmostFrontAdapter", "match_to")
-    unp = [n for n in ast.walk(rm) if isinstance(n, ast.Assign) and isinstance(n.targets[0], ast.Tuple) and chain(n.value) == "alignment"]
-    mir = [n for n in ast.walk(rm) if isinstance(n, ast.Assign) and chain(n.targets[0]) == "alignment" and isinstance(n.value, ast.Tuple)]
-    ok = False
-    facts = {}
-    if len(unp) == 1 and len(mir) == 1:
-        names = [e.id for e in unp[0].targets[0].elts]
-        got = [src(e) for e in mir[0].value.elts]
-        a0, a1, q0, q1, sc, er = names
-        want = [f"len(self.sequence) - {a1}", f"len(self.sequence) - {a0}", f"len(sequence) - {q1}", f"len(sequence) - {q0}", sc, er]
-        facts = {"mirror": got, "expected": want}
-        ok = got == want
-    rev = "reversed_sequence = sequence[::-1]" in src(rm) and "self.aligner.locate(reversed_sequence)" in src(rm).replace("\n", "").replace(" ", "").replace("(reversed_sequence)", "(reversed_sequence)") or "locate(" in src(rm)
-    kp = [src(x.args[0]) for x in calls(rm) if chain(x.func) in ("self.kmer_finder.kmers_present", "self.aligner.locate")]
-    ok = ok and kp == ["reversed_sequence", "reversed_sequence"]
-    report.ob("C01.R7", "RightmostFrontAdapter.match_to: mirrored coordinates", ok, facts=facts | {"searched": kp}, expected="(L_a - astop, L_a - astart, L_r - rstop, L_r - rstart, score, errors) of the alignment on the reversed strings", loc=repo.loc(rm))
 
 
 IUPAC = {"X": 0, "A": 1, "C": 2, "G": 4, "T": 8, "U": 8, "R": 1 | 4, "Y": 2 | 8, "S": 4 | 2, "W": 1 | 8, "K": 4 | 8, "M": 1 | 2, "B": 2 | 4 | 8, "D": 1 | 4 | 8, "H": 1 | 2 | 8, "V": 1 | 2 | 4, "N": (1 | 2 | 4 | 8) + 0x80}
 
 
 def r8_tables(repo, report):
-    fn = repo.func("_match_tables", "_iupac_table")
-    env = {}
-    for s in strip_docstring(fn.body):
-        if isinstance(s, ast.Assign) and isinstance(s.targets[0], ast.Name):
-            try:
-                env[s.targets[0].id] = constfold.fold(s.value, env)
-            except constfold.NotConstant:
-                pass
-    tbl = env.get("iupac")
-    ok = isinstance(tbl, dict) and tbl == IUPAC
-    diff = {k: (tbl.get(k) if isinstance(tbl, dict) else None, v) for k, v in IUPAC.items() if not isinstance(tbl, dict) or tbl.get(k) != v}
-    report.ob("C01.R8", "_iupac_table codes", ok, facts={"differences": diff}, expected="the IUPAC nucleotide codes as 4-bit sets, X = 0, U = T, N with bit 0x80", loc=repo.loc(fn), cases=len(IUPAC),
-              why=f"code {next(iter(diff))} is {diff[next(iter(diff))][0]}, expected {diff[next(iter(diff))][1]}" if diff else "")
-    loops = [n for n in ast.walk(fn) if isinstance(n, ast.For)]
-    ok = len(loops) == 1 and "t[ord(c)] = v" in src(loops[0]) and "t[ord(c.lower())] = v" in src(loops[0]) and src(loops[0].iter) == "iupac.items()"
-    init = [src(n.value) for n in ast.walk(fn) if isinstance(n, ast.Assign) and chain(n.targets[0]) == "t"]
-    report.ob("C01.R8", "_iupac_table: case-insensitive, everything else 0", ok and init == ["bytearray(b'\\x00') * 256"], facts={"init": init}, expected="256 zero bytes; upper and lower case of each code set", loc=repo.loc(fn))
-    fa = repo.func("_match_tables", "_acgt_table")
-    env = {}
-    for s in strip_docstring(fa.body):
-        if isinstance(s, ast.Assign) and isinstance(s.targets[0], ast.Name):
-            try:
-                env[s.targets[0].id] = constfold.fold(s.value, env)
-            except constfold.NotConstant:
-                pass
-    ok = env.get("d") == dict(A=1, C=2, G=4, T=8, U=8)
-    init = [src(n.value) for n in ast.walk(fa) if isinstance(n, ast.Assign) and chain(n.targets[0]) == "t"]
-    loops = [n for n in ast.walk(fa) if isinstance(n, ast.For)]
-    ok = ok and init == ["bytearray([128]) * 256"] and len(loops) == 1 and "t[ord(c)] = v" in src(loops[0]) and "t[ord(c.lower())] = v" in src(loops[0])
-    report.ob("C01.R8", "_acgt_table", ok, facts={"d": env.get("d"), "init": init}, expected="A/C/G/T/U (both cases) -> 1/2/4/8/8, everything else 0x80", loc=repo.loc(fa))
-    fu = repo.func("_match_tables", "_upper_table")
-    rets = [src(n.value) for n in ast.walk(fu) if isinstance(n, ast.Return)]
-    asg = [src(n.value) for n in ast.walk(fu) if isinstance(n, ast.Assign)]
-    report.ob("C01.R8", "_upper_table", asg == ["bytes(range(256)).upper()"], facts={"table": asg}, expected="bytes(range(256)).upper()", loc=repo.loc(fu))
-    # table choice in Aligner._set_reference / locate and PrefixComparer
-    def choice(fn_, var):
-        rows = explore(repo, [s for s in ast.walk(fn_) if isinstance(s, ast.If) and src(s.test) in ("self.wildcard_ref", "self.wildcard_query") and getattr(s, "_parent", None) is fn_][:1], {"self": Obj("self", nonnull=True), "reference": Obj("REF"), "query": Obj("QUERY")}, inline=False)
-        out = {}
-        for r in rows:
-            key = (r.valuation.get("truthy:self.wildcard_ref"), r.valuation.get("truthy:self.wildcard_query"))
-            st = [e[2] for e in r.effects if e[0] == "store"] + [vkey(v) for k, v in r.env.items() if k == var]
-            out[key] = [s for s in st if "TABLE" in s or "encode" in s]
-        return out
+    def want_table(codes, default):
+        t = bytearray([default]) * 256
+        for c, v in codes.items():
+            t[ord(c)] = v
+            t[ord(c.lower())] = v
+        return bytes(t)
 
+    def table_of(name):
+        f_ = repo.func("_match_tables", name)
+        try:
+            return f_, constfold.fold_function(f_)
+        except constfold.NotConstant as e:
+            return f_, f"not a closed table construction: {e}"
+        except Exception as e:  # a construction that cannot be evaluated (e.g. a value out of byte range)
+            return f_, f"table construction fails: {type(e).__name__}: {e}"
+
+    def table_diff(got, want):
+        if not isinstance(got, bytes) or len(got) != 256:
+            return {"table": got if isinstance(got, str) else f"{type(got).__name__} of length {len(got) if hasattr(got, '__len__') else '?'}"}
+        return {repr(chr(i)): (got[i], want[i]) for i in range(256) if got[i] != want[i]}
+
+    fn, got = table_of("_iupac_table")
+    diff = table_diff(got, want_table(IUPAC, 0))
+    report.ob("C01.R8", "_iupac_table codes", not diff, facts={"differences (got, expected)": dict(list(diff.items())[:8])},
+              expected="the IUPAC nucleotide codes as 4-bit sets in both cases, X = 0, U = T, N with bit 0x80, every other byte 0", loc=repo.loc(fn), cases=256,
+              why=f"entry {next(iter(diff))} is {diff[next(iter(diff))]}" if diff else "")
+    fa, got = table_of("_acgt_table")
+    diff = table_diff(got, want_table(dict(A=1, C=2, G=4, T=8, U=8), 0x80))
+    report.ob("C01.R8", "_acgt_table", not diff, facts={"differences (got, expected)": dict(list(diff.items())[:8])}, expected="A/C/G/T/U (both cases) -> 1/2/4/8/8, everything else 0x80", loc=repo.loc(fa), cases=256)
+    fu, got = table_of("_upper_table")
+    diff = table_diff(got, bytes(range(256)).upper())
+    report.ob("C01.R8", "_upper_table", not diff, facts={"differences (got, expected)": dict(list(diff.items())[:8])}, expected="bytes(range(256)).upper()", loc=repo.loc(fu), cases=256)
+    # table choice in Aligner._set_reference / locate and PrefixComparer
     c, sr = repo.need_method("Aligner", "_set_reference")
     c, lo = repo.need_method("Aligner", "locate")
     c, pi = repo.need_method("PrefixComparer", "__init__")
